@@ -175,6 +175,10 @@ func c17(c *ctx) {
 		trace(fmt.Sprintf("srv/Extension/%d", form), up(func() ws.Upgrader {
 			return ws.Upgrader{Extension: func(o httphead.Option) bool { return strings.HasPrefix(string(o.Name), "ext-") }}
 		}))
+		// every offered extension is accepted (several header lines in form 1: options from each of them)
+		trace(fmt.Sprintf("srv/ExtensionAll/%d", form), up(func() ws.Upgrader {
+			return ws.Upgrader{Extension: func(o httphead.Option) bool { return true }}
+		}))
 		trace(fmt.Sprintf("srv/NegotiateDeflate/%d", form), up(func() ws.Upgrader {
 			e := &wsflate.Extension{Parameters: wsflate.Parameters{ClientMaxWindowBits: 10, ServerNoContextTakeover: true}}
 			return ws.Upgrader{Negotiate: e.Negotiate, Protocol: func(p []byte) bool { return true }}
